@@ -228,9 +228,10 @@ def parse_tsan(err):
         if not frames:
             continue
         f0 = frames[0]
-        fn = f0.split(" in ")[-1].split(" /")[0] if " in " in f0 else f0
+        body = f0.split(" ", 1)[1] if " " in f0 else f0          # drop the "#N" prefix
+        fn = body.split(" /")[0].split("(")[0].strip()[-60:]
         loc = f0.split("/src/")[-1].split(" ")[0].split(":")[0] if "/src/" in f0 else ""
-        key = (fn.split("(")[0][-50:] + "@" + loc)
+        key = fn + "@" + loc.split("/")[-1]
         out.append((key, (frames[0] + " vs " + (frames[1] if len(frames) > 1 else "?"))[:300]))
     seen, uniq = set(), []
     for k, w in out:
